@@ -219,7 +219,32 @@ static void case_stop(uint32_t x)
     end_kid(&k);
     return;
   }
-  usleep(20000);  // let the helper install its SIGTERM disposition
+  usleep(20000);
+  if (ign) {
+    // the helper ignores SIGTERM only once it runs: wait until the kernel says so, however long the exec takes
+    char path[64], line[256];
+    snprintf(path, sizeof path, "/proc/%d/status", reproc_pid(k.p));
+    int ready = 0;
+    for (int tries = 0; tries < 4000 && !ready; tries++) {
+      FILE *f = fopen(path, "r");
+      if (!f) break;
+      unsigned long long ig = 0;
+      int zombie = 0;
+      while (fgets(line, sizeof line, f)) {
+        if (!strncmp(line, "SigIgn:", 7)) ig = strtoull(line + 7, NULL, 16);
+        if (!strncmp(line, "State:", 6) && strchr(line, 'Z')) zombie = 1;
+      }
+      fclose(f);
+      if (ig & (1ULL << (SIGTERM - 1))) ready = 1;
+      else if (zombie) break;
+      else usleep(2500);
+    }
+    if (!ready) {
+      printf("I\thelper never got to ignore SIGTERM (case_stop)\n");
+      end_kid(&k);
+      return;
+    }
+  }
   int64_t t0 = mono_us();
   int r = reproc_stop(k.p, s);
   int64_t t1 = mono_us();
